@@ -246,8 +246,16 @@ def lift_module_statements(repo, module, first_pred, last_pred, name, params):
     rewritten."""
     mi = repo.modules[module]
     body = mi.tree.body
-    i0 = next(i for i, n in enumerate(body) if first_pred(n))
-    i1 = next(i for i, n in enumerate(body) if i >= i0 and last_pred(n))
+    i0 = next((i for i, n in enumerate(body) if first_pred(n)), None)
+    if i0 is None:
+        # the statements are not where the extraction expects them (the
+        # script was restructured): nothing to lift, the contract of the
+        # lifted function then has no function ("undecided")
+        return
+    i1 = next((i for i, n in enumerate(body) if i >= i0 and last_pred(n)),
+              None)
+    if i1 is None:
+        return
     fn = ast.FunctionDef(
         name=name,
         args=ast.arguments(posonlyargs=[], args=[ast.arg(arg=p) for p in
@@ -273,10 +281,15 @@ def lift_function_tail(repo, qual, first_pred, name, params,
     `params` are its free variables.  Nothing is rewritten."""
     fi0 = repo.funcs[qual]
     body = fi0.node.body
-    i0 = next(i for i, n in enumerate(body) if first_pred(n))
+    i0 = next((i for i, n in enumerate(body) if first_pred(n)), None)
+    if i0 is None:
+        return          # the function was restructured: nothing to lift
     i1 = len(body) - 1
     if last_pred is not None:
-        i1 = next(i for i, n in enumerate(body) if i >= i0 and last_pred(n))
+        i1 = next((i for i, n in enumerate(body)
+                   if i >= i0 and last_pred(n)), None)
+        if i1 is None:
+            return
     fn = ast.FunctionDef(
         name=name,
         args=ast.arguments(posonlyargs=[], args=[ast.arg(arg=p) for p in
@@ -343,7 +356,7 @@ def lift_include_loop(repo):
             lambda n: _is_assign_to(n, 'todo'),
             lambda n: _is_assign_to(n, 'cmdline.file'),
             '<include_loop>', ['cmdline', 'opts'])
-    return repo.funcs[q]
+    return repo.funcs.get(q)
 
 
 _repo = None
